@@ -318,6 +318,64 @@ def monitor(msgs, conn, running, died, items=None):
     return bad
 
 
+def wire_pass(ctx, files, root, n):
+    """the same property over the real connection: LangServer.run() on JSONRPC2Connection(ReadWriter(bytes in, bytes out));
+    the output is split by an independent byte-level frame reader"""
+    import io
+    from fortls.interface import cli
+    from fortls.jsonrpc import JSONRPC2Connection, ReadWriter
+    from fortls.langserver import LangServer
+    odd = ["caf\u00e9", "\u03b1\u03b2", "\ud83d\ude00", "\ud83d", "tab\there", "nul\u0000x", "quote\"s", "back\\slash"]
+    for k in range(n):
+        msgs = gen_sequence(ctx.rng, files)
+        # unknown methods and parameters with non-ASCII text, astral characters and a lone surrogate (legal in JSON as \uXXXX)
+        for j in range(ctx.rng.choice([1, 2, 3])):
+            o = ctx.rng.choice(odd)
+            msgs.insert(ctx.rng.randrange(len(msgs) + 1), {"jsonrpc": "2.0", "id": "w%d-%d" % (k, j), "method": "verif/unknown " + o, "params": {"text": o}})
+        stream = b""
+        for m in msgs:
+            body = json.dumps(m).encode("ascii")            # ensure_ascii: lone surrogates travel as escapes
+            stream += b"Content-Length: %d\r\n\r\n" % len(body) + body
+        out = io.BytesIO()
+        args = vars(cli("fortls").parse_args(["--disable_autoupdate", "--incremental_sync", "--nthreads", "1"]))
+        srv = LangServer(JSONRPC2Connection(ReadWriter(io.BytesIO(stream), out)), args)
+        died = None
+        try:
+            srv.run()
+        except BaseException as ex:  # noqa: BLE001
+            died = repr(ex)
+        data = out.getvalue()
+        got, pos, frame_err = [], 0, None
+        while pos < len(data):
+            end = data.find(b"\r\n\r\n", pos)
+            if end < 0:
+                frame_err = "trailing bytes without header end"; break
+            head = data[pos:end].decode("ascii", "replace")
+            ln = [h.split(":", 1)[1].strip() for h in head.split("\r\n") if h.lower().startswith("content-length")]
+            if not ln:
+                frame_err = "frame without Content-Length"; break
+            body = data[end + 4:end + 4 + int(ln[0])]
+            try:
+                got.append(json.loads(body.decode("utf-8")))
+            except ValueError as e:
+                frame_err = "body is not JSON (%s)" % e; break
+            pos = end + 4 + int(ln[0])
+        exit_idx = next((i for i, m in enumerate(msgs) if m["method"] == "exit"), None)
+        upto = msgs if exit_idx is None else msgs[:exit_idx + 1]
+        want_ids = [m["id"] for m in upto if "id" in m]
+        got_ids = [g.get("id") for g in got if "id" in g and ("result" in g or "error" in g)]
+        ctx.count(("wire", json.dumps(msgs, sort_keys=True)), True)
+        problem = None
+        if died:
+            problem = "run() raised %s" % died
+        elif frame_err:
+            problem = frame_err
+        elif got_ids != want_ids:
+            problem = "response ids on the wire %r, request ids %r" % (got_ids[:12], want_ids[:12])
+        if problem:
+            ctx.report("C01:wire", "over the real connection: %s" % problem, {"kind": "counterexample", "input": {"messages": msgs}, "implementation": got_ids[:40], "oracle": want_ids[:40]})
+
+
 def setup_root():
     root = os.path.join(tempfile.gettempdir(), "verif_c01_ws")   # fixed, so that replay files stay meaningful
     shutil.rmtree(root, ignore_errors=True)
@@ -430,6 +488,7 @@ def run(ctx):
                            {"kind": "broken-correspondence", "input": {"messages": msgs}, "behaviours": beh,
                             "correspondence": "FV.C01.Model.run proto vs LangServer.run",
                             "implementation": [(o[0], o[1]) for o in conn.out if o[0] in ("r", "e")]}, found_input=False)
+        wire_pass(ctx, files, root, 25 if ctx.quick() else 500)
     finally:
         shutil.rmtree(root, ignore_errors=True)
 
